@@ -1618,6 +1618,12 @@ func (p *Parser) parseAsyncExpression(prec OpPrec, async []byte) IExpr {
 	// IdentifierReference, AsyncFunctionExpression, AsyncGeneratorExpression
 	// CoverCallExpressionAndAsyncArrowHead, AsyncArrowFunction
 	// assume we're at a token after async
+	p.exprLevel++
+	if NestedExprLimit < p.exprLevel {
+		p.failMessage("too many nested expressions")
+		return nil
+	}
+
 	var left IExpr
 	precLeft := OpPrimary
 	if !p.prevLT && p.tt == FunctionToken {
@@ -1629,7 +1635,9 @@ func (p *Parser) parseAsyncExpression(prec OpPrec, async []byte) IExpr {
 			p.fail("arrow function")
 			return nil
 		} else if p.tt == OpenParenToken {
-			return p.parseParenthesizedExpression(prec, async)
+			expr := p.parseParenthesizedExpression(prec, async)
+			p.exprLevel--
+			return expr
 		}
 		left = p.parseAsyncArrowFunc()
 		precLeft = OpAssign
@@ -1637,7 +1645,9 @@ func (p *Parser) parseAsyncExpression(prec OpPrec, async []byte) IExpr {
 		left = p.scope.Use(async)
 	}
 	// can be async(args), async => ..., or e.g. async + ...
-	return p.parseExpressionSuffix(left, prec, precLeft)
+	expr := p.parseExpressionSuffix(left, prec, precLeft)
+	p.exprLevel--
+	return expr
 }
 
 // parseExpression parses an expression that has a precedence of prec or higher.
